@@ -42,7 +42,7 @@ def run(tier, seed):
     os.environ['VERIF_C17_ROOT'] = proj
     runner.load_module(HARNESS, 'h_c17_setup').materialise(proj)
     qs = []
-    ncase = 6
+    ncase = 10
     for c in range(ncase):
         slices = ['case == %d' % c]
         for i, pre in enumerate(slices):
@@ -56,11 +56,12 @@ def run(tier, seed):
     rep.functions = ['supp.scope.Flow.parent_names (row construction through a set)', 'supp.name.MultiName.__init__',
                      'first_name', 'SourceScope.exported_names', 'EvalCtx.declarations', 'assistant.location',
                      'ImportedName.resolve']
-    rep.bounds = ['6 programs with 3..5 alternative definitions of one name (if/elif/else, try/except/else, loops, '
-                  'from-import and attribute access across a project module)',
+    rep.bounds = ['8 programs with 3..5 alternative definitions of one name (if/elif/else, try/except/else, loops, nested groups that share their '
+                  'first definition, from-import and attribute access across a project module) and 2 completion requests whose proposals differ '
+                  'only by letter case',
                   'every permutation of the first three sets of 2..3 elements iterated on the path (6^3 orders); sets of 4 '
                   'elements: 6 of 24 orders']
-    rep.assumptions = ['the name `set` in supp.name/supp.scope/supp.evaluator is rebound to a set subclass with '
+    rep.assumptions = ['the name `set` in supp.name/supp.scope/supp.evaluator/supp.assistant is rebound to a set subclass with '
                        'solver-chosen iteration order; dict order and os.listdir order are not varied',
                        'fresh-process / hash-seed runs are outside the technique']
     for q in qs[:4]:
